@@ -2417,6 +2417,9 @@ impl Residual {
         debug_assert!(rice_params.len() == 1usize << partition_order as usize);
 
         let max_quotients: usize = find_max::<64>(&quotients) as usize;
+        // `block_size` is not verified yet when this is reached from `Residual::new`, so the
+        // product must not overflow.
+        let sum_fits_u32 = max_quotients.saturating_mul(block_size) < u32::MAX as usize;
         #[cfg(flacenc_verif)]
         crate::verif_hook::point(
             if max_quotients * block_size < u32::MAX as usize {
@@ -2427,7 +2430,7 @@ impl Residual {
             block_size,
             max_quotients,
         );
-        let sum_quotients: usize = if max_quotients * block_size < u32::MAX as usize {
+        let sum_quotients: usize = if sum_fits_u32 {
             // If overflow-safe, use SIMD.
             wrapping_sum::<u32, 32>(&quotients) as usize
         } else {
